@@ -118,7 +118,9 @@ Recognise(s) ==
                                IF t.ok THEN [ok |-> TRUE, kind |-> "time", d |-> NoDate, t |-> t.t, hasoff |-> t.hasoff, off |-> t.off] ELSE Invalid
              ELSE Invalid)
        ELSE LET d == RecDate(Sub(s, 1, p - 1))  t == RecTime(Sub(s, p + 1, Len(s))) IN
-            IF d.ok /\ t.ok /\ ~({d.style, t.style} = {"ext", "basic"})
+            \* a combined form needs a complete date (not the reduced precisions YYYY / YYYY-MM)
+            IF d.ok /\ t.ok /\ ~({d.style, t.style} = {"ext", "basic"}) /\ Len(Sub(s, 1, p - 1)) >= 7
+               /\ ~(Len(Sub(s, 1, p - 1)) = 7 /\ s[5] = cDash)
             THEN [ok |-> TRUE, kind |-> "datetime", d |-> d.d, t |-> t.t, hasoff |-> t.hasoff, off |-> t.off] ELSE Invalid
 
 \* ---------------------------------------------------------------- durations
